@@ -683,16 +683,21 @@ func unitJobs(c *Ctx) []UnitReplay {
 		t, f, evs := genPacket()
 		enc, _, _ := rpc.VC01EncodeWritePacket(t, f, toApis(evs))
 		shape := "valid"
-		switch r.Intn(8) {
+		switch r.Intn(9) {
 		case 0, 1, 2, 3:
-		case 4:
-			// the count says more events than there are
+		case 4, 5:
+			// the count says more (or fewer) events than there are
 			idx := len(enc)
 			for _, e := range evs {
 				idx -= rpc.VC01LogEventSize(toApi(e))
 			}
-			enc[idx-1] += byte(r.Range(1, 3))
-			shape = "count-too-large"
+			if len(evs) > 0 && r.Chance(1, 2) {
+				enc[idx-1] -= byte(r.Range(1, len(evs)))
+				shape = "count-too-small"
+			} else {
+				enc[idx-1] += byte(r.Range(1, 3))
+				shape = "count-too-large"
+			}
 		default:
 			enc, shape = mangle(r, enc)
 		}
